@@ -435,7 +435,7 @@ def _mk_step(v):
         old, target, nxt = _step_target(vc, kind, v)
         out = vc.call(_conv_name(v), vc.lift(old) if vc.mode == "sym" else old)
         if v in KF2_STEPS:
-            vc.ensure_kf("no_exception", out.ok, "KF-C38-2", kind in ("http_noresp", "http_err"))
+            vc.ensure("no_exception", out.ok)  # was recorded finding KF-C38-2, repaired in /repo
         else:
             vc.ensure("no_exception", out.ok)
         if not out.ok:
@@ -443,7 +443,7 @@ def _mk_step(v):
         vkey = b"version" if b"type" in target else "version"
         got_v = dget(vc, out.result, vkey)
         vc.ensure("version.is_successor", _version_is(vc, got_v, nxt))
-        ensure_tree(vc, "result", out.result, target, skip=(vkey,), kf=("KF-C38-3", "<keys>", kind == "tcp") if v == KF3_STEP else None)
+        ensure_tree(vc, "result", out.result, target, skip=(vkey,), kf=None)  # was recorded finding KF-C38-3, repaired in /repo
 
     return s
 
@@ -487,7 +487,7 @@ def s_ws_pair(vc):
     m1 = msgs[1].items if vc.mode == "sym" else msgs[1]
     vc.ensure("websocket.binary_payload_unchanged", _and_mixed([isinstance(m0[2], (SBytes, bytes)), vc.eq(m0[2], binary)]))
     # current flows keep every message payload as bytes (websocket.WebSocketMessage.content: bytes)
-    vc.ensure_kf("websocket.text_payload_is_bytes", isinstance(m1[2], (SBytes, bytes)), "KF-C38-1", True)
+    vc.ensure("websocket.text_payload_is_bytes", isinstance(m1[2], (SBytes, bytes)))  # was recorded finding KF-C38-1, repaired in /repo
     vc.ensure("websocket.close_data", _and_mixed([vc.eq(dget(vc, wsd, "close_code"), base["websocket"]["close_code"]), vc.eq(dget(vc, wsd, "close_reason"), base["websocket"]["close_reason"]),
                                                   vc.eq(dget(vc, wsd, "closed_by_client"), base["websocket"]["closed_by_client"])]))
     vc.ensure("websocket.request_kept", vc.eq(dget(vc, dget(vc, r, "request"), "path"), base["request"]["path"]))
@@ -519,13 +519,13 @@ def _mk_chain(v):
         kf3 = kind == "tcp" and B.rank(v) <= B.rank(11)
         out = vc.call(M, vc.lift(old) if vc.mode == "sym" else old)
         if kf2:
-            vc.ensure_kf("no_exception", out.ok, "KF-C38-2", True)
+            vc.ensure("no_exception", out.ok)  # was recorded finding KF-C38-2, repaired in /repo
         else:
             vc.ensure("no_exception", out.ok)
         if not out.ok:
             return
         vc.ensure("version.is_current", _version_is(vc, dget(vc, out.result, "version"), _current()))
-        ensure_tree(vc, "state", out.result, expected, kf=("KF-C38-3", "<keys>", True) if kf3 else None)
+        ensure_tree(vc, "state", out.result, expected, kf=None)  # was recorded finding KF-C38-3, repaired in /repo
 
     return s
 
